@@ -349,9 +349,12 @@ class ListNode(SequenceNode[Tuple[T, ...]], Generic[T]):
                     to_node=node
                 )
             else:
-                if self.all_children_are_leaves() and node.all_children_are_leaves():
+                if self.all_children_are_leaves() and node.all_children_are_leaves() \
+                        and all(c.total_size > 0 for c in self._children) \
+                        and all(c.total_size > 0 for c in node._children):
                     insert_remove_penalty = 0
                 else:
+                    # Without the penalty, inserting or removing an element of size zero (null, "") would be free
                     insert_remove_penalty = 1
                 return EditDistance(
                     self,
